@@ -25,6 +25,7 @@ func init() {
 			"C05.ordered-reassembly: in UnTarIndex the chunk data channels are handed to the assembler by the single feeder that ranges over index.Chunks in order.",
 		NotDecided: "equality of the unpacked tree; xattr/device semantics of the OS; gnu-tar and mtree writers; symlink times.",
 		Rules: []rule{
+			{"C05.tar-index-needs-tar", "tar -i stores its index only when desync.Tar succeeded; a failed Tar never ends in success (shared with C06)", 1, func(c *Ctx) { c.tarIndexNeedsTar() }},
 			{"C05.digest-flag", "the SHA512/256 index flag is derived from the digest in use only", 3, c05DigestFlag},
 			{"C05.wrapper-order", "a wrapping writer (tar, bufio) is flushed/closed before the writer underneath it is closed", 1, func(c *Ctx) { c.wrapperOrder() }},
 			{"C05.string-terminator", "readString takes exactly the one terminating byte off a string element", 1, c05StringTerminator},
